@@ -1044,7 +1044,6 @@ func naturalWriteFault(cs *caseSpec, before map[string]entry) bool {
 	return false
 }
 
-
 // judge applies the oracle to one executed call of a dir or tree API.
 func judge(c *kit.Check, cs *caseSpec, o *outcome, failed bool) []finding {
 	var out []finding
@@ -1469,6 +1468,10 @@ func TestVerifC23(t *testing.T) {
 	nTree := kit.Scale(400, 1200)
 	reps := 8
 	only := kit.OnlyCase()
+
+	if only >= 0 {
+		c.MinDistinct(0)
+	}
 
 	orders := map[string]bool{}
 	runMulti := func(cs *caseSpec) {
